@@ -131,9 +131,10 @@ class gre (packet_base):
 
         offset = None
         if csum_present or route_present:
-            self.csum,self.route_offset = struct.unpack("!HH", raw[o:o+4])
+            csum,self.route_offset = struct.unpack("!HH", raw[o:o+4])
+            if csum_present: self.csum = csum
             o += 4
-            if self.verify_csum:
+            if csum_present and self.verify_csum:
                 if checksum(raw) != 0:
                     self.msg('warning GRE checksum did not match')
                     return
